@@ -1,8 +1,13 @@
 import Rpcx.Lemmas.Wire
+import Rpcx.Lemmas.Blit
+import Rpcx.Props.C01Header
 /-
   C01, codec part: "Any message … that is encoded into the rpcx binary frame decodes back
   to an equal message, whichever of the two encoders produced the bytes."
 
+  `encodeBuf_frame` / `roundtrip_buf`: the pooled-buffer encoder (`EncodeSlicePointer`),
+  interpreted from its REGENERATED list of writes, produces exactly the streaming frame whatever
+  stale bytes the pool buffer held, and therefore round-trips too.
   `roundtrip_stream`: for EVERY message (any header bits, any byte strings, any number of
   metadata entries in any order, any payload, any registered compressor obeying
   unzip ∘ zip = id) the decoder applied to the streaming encoder's bytes – followed by
@@ -133,6 +138,93 @@ theorem layout_blits (spL smL metaL payL : Nat) :
   unfold encBlits canonBlits enc_totalL enc_metaStart enc_payLoadStart
   simp only [enc_metaStart, List.cons.injEq, Blit.u32.injEq, Blit.copy.injEq, Option.some.injEq, and_true, true_and]
   omega
+
+/-- **The pooled-buffer encoder writes exactly the streaming frame.**  Performing the
+    regenerated writes of `EncodeSlicePointer` on a pool buffer with arbitrary stale contents
+    yields the frame `WriteTo` would produce for the (leniently) compressed payload – no stale
+    byte survives, nothing panics. -/
+theorem encodeBuf_frame (reg : Registry) (m : Msg) (stale : Bytes) :
+    encodeBuf reg m stale =
+      some (frameOf (zipLenient reg m.hdr m.payload).1 m.path m.method (encodeMeta m.md)
+        (zipLenient reg m.hdr m.payload).2) := by
+  unfold encodeBuf
+  simp only []
+  rw [layout_blits, layout_bufLen]
+  exact applyBlits_frame _ _ _ _ _ _ (by simp [List.length_take, List.length_append])
+
+theorem setCompressType_none (h : Header) :
+    (Header.compressType (Header.setCompressType h C.CompressType_None) == C.CompressType_None) = true := by
+  have := congrArg HView.compress (set_compressType h C.CompressType_None (by decide))
+  simp only [view] at this
+  rw [this]; decide
+
+theorem unzip_of_zipLenient {reg : Registry} (hl : Lawful reg) (h : Header) (p : Bytes) :
+    unzipStep reg (zipLenient reg h p).1 (zipLenient reg h p).2 = .ok p := by
+  unfold zipLenient
+  split
+  · rename_i hc; simp only [unzipStep]; rw [if_pos hc]
+  · rename_i hc
+    split
+    · simp only [unzipStep]; rw [if_pos (setCompressType_none h)]
+    · rename_i c hr
+      split
+      · simp only [unzipStep]; rw [if_pos (setCompressType_none h)]
+      · rename_i z hz
+        simp only [unzipStep]; rw [if_neg hc, hr]
+        simp only []
+        rw [hl _ c p z hr hz]
+
+theorem zipLenient_magic (reg : Registry) (h : Header) (p : Bytes) : (zipLenient reg h p).1.b0 = h.b0 := by
+  unfold zipLenient
+  split
+  · rfl
+  · split
+    · rfl
+    · split <;> rfl
+
+/-- C01 (pooled-buffer encoder): decode ∘ EncodeSlicePointer = id for every message, every
+    stale pool buffer and any bytes after – up to the one thing that encoder changes on purpose:
+    when the compressor is missing or fails it sends the payload uncompressed and clears the
+    compress bits (`zipLenient`); with a registered, working compressor the header is unchanged
+    (`zipLenient_hdr`). -/
+theorem roundtrip_buf (reg : Registry) (hl : Lawful reg) (m : Msg) (hwf : WF m) (stale bs rest : Bytes)
+    (he : encodeBuf reg m stale = some bs) (hsz : bs.length < 4294967296) :
+    decode ⟨0, reg⟩ (bs ++ rest) = .ok ({ m with hdr := (zipLenient reg m.hdr m.payload).1 }, rest) := by
+  rw [encodeBuf_frame] at he
+  simp only [Option.some.injEq] at he
+  subst he
+  generalize hz : zipLenient reg m.hdr m.payload = hz' at *
+  obtain ⟨h', z⟩ := hz'
+  have hmag : h'.b0 = C.magicNumber := by
+    have := zipLenient_magic reg m.hdr m.payload
+    rw [hz] at this; rw [this]; exact hwf.magic
+  have hun : unzipStep reg h' z = .ok m.payload := by
+    have := unzip_of_zipLenient hl m.hdr m.payload
+    rw [hz] at this; exact this
+  simp only at hsz ⊢
+  have hlen : (frameOf h' m.path m.method (encodeMeta m.md) z).length =
+      12 + (4 + ((4 + m.path.length) + (4 + m.method.length) + (4 + (encodeMeta m.md).length) + (4 + z.length))) := by
+    simp [frameOf, List.length_append]; omega
+  have hzl : z.length < 4294967296 := by omega
+  rw [frame_shape]
+  rw [decode_frame ⟨0, reg⟩ h' _ rest hmag (by rw [bodyOf_length]; omega) (by simp)]
+  unfold bodyOf
+  rw [decodeBody_sections reg h' m.path m.method z [] m.md hwf.path hwf.method hwf.md hwf.mdBytes hzl]
+  rw [hun]
+  rfl
+
+/-- with a registered compressor that accepts the payload (or no compression requested) the
+    pooled-buffer encoder leaves the header alone -/
+theorem zipLenient_hdr (reg : Registry) (h : Header) (p : Bytes)
+    (hok : Header.compressType h == C.CompressType_None ∨ ∃ c z, reg (Header.compressType h) = some c ∧ c.zip p = some z) :
+    (zipLenient reg h p).1 = h := by
+  unfold zipLenient
+  split
+  · rfl
+  · rename_i hc
+    rcases hok with h0 | ⟨c, z, hr, hz⟩
+    · exact absurd h0 hc
+    · rw [hr]; simp only []; rw [hz]
 
 /-- the tie: the layout of EncodeSlicePointer was translated from the current source this run -/
 theorem tie_layout : Gen.layoutTieOk = true := by decide
